@@ -820,7 +820,7 @@ pub fn model_input(base: &Base, op: usize, rng: &mut Rng, deep_groups: usize) ->
             let mut l = LayerM::image("tm");
             l.kind = LayerKind::Tilemap(0);
             sp.layers.push(l);
-            let n = *rng.pick(&[32_769u16, 32_770, 40_000]);
+            let n = *rng.pick(&[32_769u16, 32_770, 32_800]);
             let (mw, mh) = if wide { (n, 1u16) } else { (1, n) };
             let mut tiles = vec![0u32; n as usize];
             tiles[0] = 1;
